@@ -117,7 +117,8 @@ def _dir(rng):
     return math.cos(a), math.sin(a)
 
 
-PYTH = [(3, 4), (5, 12), (8, 15), (7, 24), (20, 21), (1, 0), (0, 1), (-3, 4), (4, -3), (-5, -12)]
+PYTH = [(3, 4), (5, 12), (8, 15), (7, 24), (20, 21), (1, 0), (0, 1), (-3, 4), (4, -3), (-5, -12), (-1, 0), (0, -1),
+        (-8, -15), (-1, 0)]
 
 
 def _rand_case(rng):
